@@ -8,7 +8,7 @@
    sums; a result [r] carries the kept ids [tr_keep], the returned matrix [tr_counts], the two
    dictionaries of the TrimMapping in insertion order and the container kind. *)
 From Coq Require Import List ZArith Sorted.
-From EV Require Import Trim TrimProofs.
+From EV Require Import Trim TrimProofs TrimBase TrimGen TrimView TrimGenProofs.
 Import ListNotations.
 
 (* "strongly connected ... with respect to counts at or above the threshold": the closure the model
@@ -202,3 +202,90 @@ Example c11_example :
   /\ trim_disconnected 1 [[1;2;3];[0;1;1]]%Z true Dense = None.
 Proof. exact trim_example. Qed.
 Print Assumptions c11_example.
+
+(* ======================================================================== round 2: tie to the source
+   Gen/TrimGen.v is written by translator/tr_trim.py from the CURRENT text of trim_disconnected,
+   TrimMapping (transition_matrices.py) and MSM.fit (msm.py) as a let-chain over the NumPy / SciPy /
+   Python vocabulary of Base/TrimBase.v.  [gen_trim_disconnected inp thr ren] takes the input as the
+   code gets it ([NdArray cells] or [SparseM format rows cols stored_entries], a cell possibly stored
+   several times); [bind_gen] reads the returned (mapping, trimmed_counts) through the generated
+   to_original slot / to_mapped property.  The theorems below say the generated code IS the model
+   the theorems above are about. *)
+
+(* every clause above transfers to the code as written: densification before thresholding, the
+   `counts < threshold` mask, strong/directed components, weights = sums of ORIGINAL row sums,
+   first arg-max, np.ix_ extraction / zeroing of rows and columns on a copy, the zip order of the
+   mapping in both branches, and the restored container type *)
+Theorem c11_generated_trim_is_the_model : forall inp thr ren,
+  bind_gen (gen_trim_disconnected inp thr ren) = trim_disconnected thr (toarray inp) ren (py_type inp).
+Proof. exact gen_trim_disconnected_model. Qed.
+Print Assumptions c11_generated_trim_is_the_model.
+
+(* "dense and sparse inputs agree": the threshold is applied to counts, never to stored entries *)
+Theorem c11_generated_stored_entries_irrelevant : forall inp inp' thr ren,
+  toarray inp = toarray inp' -> py_type inp = py_type inp' ->
+  bind_gen (gen_trim_disconnected inp thr ren) = bind_gen (gen_trim_disconnected inp' thr ren).
+Proof. exact gen_trim_stored_entries_irrelevant. Qed.
+Print Assumptions c11_generated_stored_entries_irrelevant.
+
+Theorem c11_generated_dense_sparse_agree : forall inp thr ren rd rs,
+  bind_gen (gen_trim_disconnected (NdArray (toarray inp)) thr ren) = Some rd ->
+  bind_gen (gen_trim_disconnected inp thr ren) = Some rs ->
+  tr_keep rd = tr_keep rs /\ tr_counts rd = tr_counts rs /\
+  tr_to_original rd = tr_to_original rs /\ tr_to_mapped rd = tr_to_mapped rs /\
+  tr_container rs = py_type inp.
+Proof. exact gen_trim_dense_sparse_agree. Qed.
+Print Assumptions c11_generated_dense_sparse_agree.
+
+(* TrimMapping as written (to_original stored, to_mapped derived on every read) is the model's *)
+Theorem c11_generated_trim_mapping_is_the_model : forall ps,
+  tm_view (gen_tm_init (PyList ps)) = trim_mapping ps.
+Proof. exact gen_trim_mapping_model. Qed.
+Print Assumptions c11_generated_trim_mapping_is_the_model.
+
+(* the to_mapped setter stores the inverse in the only slot: reading back returns what was set *)
+Theorem c11_generated_to_mapped_setter_roundtrip : forall self value,
+  NoDup (map fst value) -> NoDup (map snd value) ->
+  gen_tm_to_mapped (gen_tm_set_to_mapped self value) = Some value.
+Proof. exact gen_to_mapped_setter. Qed.
+Print Assumptions c11_generated_to_mapped_setter_roundtrip.
+
+(* "a model fitted with trimming reports the same mapping": MSM.fit as written hands the counts to
+   trim_disconnected with the source's arguments and stores its mapping (identity without trim) *)
+Theorem c11_generated_fit_is_the_model : forall trim inp,
+  bind_gen (gen_fit_trim trim inp) = msm_fit trim (toarray inp) (py_type inp).
+Proof. exact gen_fit_trim_model. Qed.
+Print Assumptions c11_generated_fit_is_the_model.
+
+(* the kept ids the harness reads off the mapping are the model's kept ids *)
+Theorem c11_keep_is_read_off_the_mapping : forall thr C ren cont r,
+  trim_disconnected thr C ren cont = Some r -> tr_keep r = map snd (tr_to_original r).
+Proof. exact keep_from_mapping. Qed.
+Print Assumptions c11_keep_is_read_off_the_mapping.
+
+(* the library call the generated code makes computes the model's closure and one label per class:
+   two states get the same label iff they are mutually reachable *)
+Theorem c11_generated_labels_are_strong_components : forall thr C i j,
+  i < length C -> j < length C ->
+  (cc_label (reach_mat thr C) (length C) i = cc_label (reach_mat thr C) (length C) j
+   <-> mutual thr C i j).
+Proof. exact labels_iff_mutual. Qed.
+Print Assumptions c11_generated_labels_are_strong_components.
+
+(* Non-vacuity on the generated code: split COO entries (unit entries below the threshold, their
+   sums not), the one-way-bridge example, both error paths, TrimMapping on a list and on []. *)
+Example c11_generated_example :
+  bind_gen (gen_trim_disconnected
+              (SparseM 2 3 3 [(0,1,1%Z); (1,0,1%Z); (0,1,1%Z); (2,2,1%Z); (1,0,1%Z); (1,2,1%Z)]) 2 true)
+  = Some {| tr_keep := [0; 1]; tr_counts := [[0;2];[2;0]]%Z;
+            tr_to_original := [(0,0);(1,1)]; tr_to_mapped := [(0,0);(1,1)];
+            tr_container := Sparse 2 |}
+  /\ bind_gen (gen_trim_disconnected
+                 (NdArray [[0;0;2;0;0];[0;0;0;7;0];[0;0;0;0;2];[0;5;1;0;0];[2;3;0;0;0]]%Z) 2 false)
+     = trim_disconnected 2 [[0;0;2;0;0];[0;0;0;7;0];[0;0;0;0;2];[0;5;1;0;0];[2;3;0;0;0]]%Z false Dense
+  /\ gen_trim_disconnected (NdArray []) 1 true = None
+  /\ gen_trim_disconnected (NdArray [[1;2;3];[0;1;1]]%Z) 1 true = None
+  /\ tm_view (gen_tm_init (PyList [(5,0);(2,1)])) = Some ([(0,5);(1,2)], [(5,0);(2,1)])
+  /\ tm_view (gen_tm_init (PyList [])) = None.
+Proof. exact gen_trim_example. Qed.
+Print Assumptions c11_generated_example.
